@@ -406,14 +406,14 @@ def run_diff_case(R, col, c, filters, gitout=None, traces=None, verbose=False):
     col.n += 1
     if A != B:
         col.nontrivial += 1
-    _fail = col.fail
+    base = col
 
     class _C:       # every failure of this case carries the pair (for sub-case minimisation)
         def __getattr__(s, k):
-            return getattr(col, k)
+            return getattr(base, k)
 
         def fail(s, *a):
-            _fail(*a, AB=(A, B))
+            base.fail(*a, AB=(A, B))
     col = _C()
     ta, e1 = call(R.build_cached, A)
     tb, e2 = call(R.build_cached, B)
